@@ -17,7 +17,7 @@ Record case := mkCase {
 Definition res_eqb (a b : res) : bool :=
   match a, b with
   | ROk x, ROk y => bytes_eqb x y
-  | RNotFound, RNotFound | RBadRange, RBadRange | RFault, RFault => true
+  | RNotFound, RNotFound | RBadRange, RBadRange | RFault, RFault | RCtx, RCtx => true
   | _, _ => false
   end.
 
@@ -73,4 +73,40 @@ Definition check_case (k : case) : bool :=
       store_eqb (m_seg (d_prim d)) (k_prim_seg k) && store_eqb (m_idx (d_prim d)) (k_prim_idx k) &&
       store_eqb (m_seg (d_repl d)) (k_repl_seg k) && store_eqb (m_idx (d_repl d)) (k_repl_idx k) &&
       Bool.eqb (m_ready (d_prim d)) (k_prim_ready k) && Bool.eqb (m_ready (d_repl d)) (k_repl_ready k)
+  end.
+
+(* ---------- timed reads (testing/synctest virtual time, ms) ---------- *)
+(* The harness puts both buckets behind context-honouring fakes with a planned
+   latency and outcome, calls the real dual client with a caller context that has a
+   deadline and/or is cancelled mid-call, and records the result, the elapsed
+   virtual time, whether the primary fake was called and which deadline the context
+   it received carried (relative to the start of the call). *)
+Record tcase := mkTCase {
+  t_prim_seg : store; t_prim_idx : store; t_repl_seg : store; t_repl_idx : store;
+  t_index : bool;                       (* DownloadIndex instead of DownloadSegment *)
+  t_key : bytes; t_rng : rng;
+  t_deadline : option Z; t_cancel : option Z;   (* caller context *)
+  t_rp : plan; t_pp : plan;
+  to_res : res; to_elapsed : Z; to_pcalled : bool; to_pdeadline : option Z }.
+
+Definition omin (a b : option Z) : option Z :=
+  match a, b with
+  | Some x, Some y => Some (Z.min x y)
+  | Some x, None | None, Some x => Some x
+  | None, None => None
+  end.
+
+Definition check_tcase (k : tcase) : bool :=
+  let d := mkDual (mkMem (t_prim_seg k) (t_prim_idx k) false) (mkMem (t_repl_seg k) (t_repl_idx k) false) in
+  let budget := omin (t_deadline k) (t_cancel k) in
+  let repl_content := if t_index k then mem_get_idx (d_repl d) (t_key k) else mem_get_seg (d_repl d) (t_key k) (t_rng k) in
+  let model := if t_index k then dual_get_idx_timed d (t_key k) budget (t_rp k) (t_pp k)
+               else dual_get_seg_timed d (t_key k) (t_rng k) budget (t_rp k) (t_pp k) in
+  match model, timed_call budget (t_rp k) repl_content with
+  | Some (x, t), Some (a, _) =>
+      res_eqb x (to_res k) && (t =? to_elapsed k) &&
+      Bool.eqb (negb (is_ok a)) (to_pcalled k) &&
+      (* the context the primary receives is the caller's: same deadline *)
+      (if to_pcalled k then opt_eqb Z.eqb (to_pdeadline k) (t_deadline k) else true)
+  | _, _ => false
   end.
